@@ -556,10 +556,15 @@ func c11RunCase(ctx *Ctx, idx int, hostile bool) {
 			return
 		}
 		// evaluate every curve under several sensor states
-		for round, temp := range []string{"-50000", "0", "45000", "61000", "200000"} {
+		for round, temp := range []string{"-50000", "0", "45000", "<unreadable>", "61000", "200000"} {
 			for _, sc := range cfg.Sensors {
 				if sc.File != nil {
-					_ = os.WriteFile(sc.File.Path, []byte(temp+"\n"), 0644)
+					if temp == "<unreadable>" {
+						// a sensor that cannot be read at the moment: evaluation may report errors, it must not crash
+						_ = os.Remove(sc.File.Path)
+					} else {
+						_ = os.WriteFile(sc.File.Path, []byte(temp+"\n"), 0644)
+					}
 				}
 				if s, ok := sensors.GetSensor(sc.ID); ok {
 					_ = internal.VerifUpdateSensor(s)
